@@ -43,6 +43,24 @@ type worker struct {
 	e        *engine
 	n        map[string]int64
 	distinct map[string]struct{}
+	census   bool // evaluate the survival census (census.go) on top of the three clauses
+}
+
+// withCensus runs f with the survival census switched on for this worker.
+func (w *worker) withCensus(f func()) {
+	old := w.census
+	w.census = true
+	defer func() { w.census = old }()
+	f()
+}
+
+// keepOut: what is stored of a formatted text / a detail line for the report (replay
+// files hold the full input text; a very long output is stored in its elided form).
+func keepOut(s string) string {
+	if len(s) > 8192 {
+		return elide(s)
+	}
+	return s
 }
 
 func (e *engine) run(tasks []func(w *worker)) {
@@ -85,7 +103,7 @@ func (e *engine) run(tasks []func(w *worker)) {
 func (w *worker) eval(family string, sites []string, label string, triples []string, text string) verdict {
 	w.n["evaluations"]++
 	w.n["programs_"+family]++
-	v := check(text)
+	v := checkOpt(text, w.census || censusEverywhere)
 	if !v.parsed {
 		w.n["parser_rejects"]++
 		if v.astOnError {
@@ -143,10 +161,10 @@ func (w *worker) eval(family string, sites []string, label string, triples []str
 	e.mu.Lock()
 	f := e.viol[key]
 	if f == nil {
-		f = &finding{key: key, kind: v.kind, family: family, text: text, out: v.out, detail: v.detail, rank: rank, env: env}
+		f = &finding{key: key, kind: v.kind, family: family, text: text, out: keepOut(v.out), detail: keepOut(v.detail), rank: rank, env: env}
 		e.viol[key] = f
 	} else if rank < f.rank || (rank == f.rank && (len(text) < len(f.text) || (len(text) == len(f.text) && text < f.text))) {
-		f.family, f.text, f.out, f.detail, f.rank, f.env = family, text, v.out, v.detail, rank, env
+		f.family, f.text, f.out, f.detail, f.rank, f.env = family, text, keepOut(v.out), keepOut(v.detail), rank, env
 	}
 	f.count++
 	if rank == 0 {
@@ -170,7 +188,7 @@ func (e *engine) recheck(env, text string) bool {
 		kind, _, _ := e.cp.crossVerdict(text)
 		return kind != ""
 	}
-	v := check(text)
+	v := checkOpt(text, true)
 	return v.kind != "" || v.astOnError
 }
 
@@ -188,7 +206,7 @@ func (e *engine) report() {
 	}
 	sort.Strings(keys)
 	for _, k := range keys {
-		fmt.Printf("C19-CLASS key=%s texts=%d valid_before=%d invalid_becomes_valid=%d example=%q\n", k, e.viol[k].count, e.viol[k].validBefore, e.viol[k].becomesValid, e.viol[k].text)
+		fmt.Printf("C19-CLASS key=%s texts=%d valid_before=%d invalid_becomes_valid=%d example=%q\n", k, e.viol[k].count, e.viol[k].validBefore, e.viol[k].becomesValid, elide(e.viol[k].text))
 	}
 	e.r.Set("violation_key_list", keys)
 	for _, k := range keys {
@@ -198,7 +216,7 @@ func (e *engine) report() {
 			f.detail = "[environment: " + map[string]string{"unset": "none of the referenced variables / files exists", "cross": "formatted while every referenced variable / file is set, compiled while none exists"}[env] + "] " + f.detail
 		}
 		msg := fmt.Sprintf("%s\n%d generated text(s) in this class (%d validated before formatting, %d were invalid and validate after formatting); most severe, then shortest text:\n%s\nformatted:\n%s",
-			f.detail, f.count, f.validBefore, f.becomesValid, indent(f.text), indent(f.out))
+			f.detail, f.count, f.validBefore, f.becomesValid, indent(elide(f.text)), indent(elide(f.out)))
 		e.r.Violation(f.key, msg, map[string]any{"text": f.text, "formatted": f.out, "family": f.family, "detail": f.detail, "texts_in_class": f.count,
 			"texts_valid_before": f.validBefore, "texts_invalid_becoming_valid": f.becomesValid, "env": env},
 			func() bool { return e.recheck(env, text) })
@@ -600,15 +618,15 @@ func replay(e *engine, path string) {
 			e.r.Infra("replay: %v", err)
 			return
 		}
-		v = check(doc.Replay.Text)
+		v = checkOpt(doc.Replay.Text, true)
 		e.cp.useEnv(false)
 	case "cross":
 		v = verdict{parsed: true}
 		v.kind, v.detail, v.out = e.cp.crossVerdict(doc.Replay.Text)
 	default:
-		v = check(doc.Replay.Text)
+		v = checkOpt(doc.Replay.Text, true)
 	}
-	fmt.Printf("REPLAY key=%s parsed=%v compiled_ok=%v kind=%q\n%s\ntext:\n%s\nformatted:\n%s\n", doc.Key, v.parsed, v.compiledOK, v.kind, v.detail, indent(doc.Replay.Text), indent(v.out))
+	fmt.Printf("REPLAY key=%s parsed=%v compiled_ok=%v kind=%q\n%s\ntext:\n%s\nformatted:\n%s\n", doc.Key, v.parsed, v.compiledOK, v.kind, keepOut(v.detail), indent(elide(doc.Replay.Text)), indent(elide(v.out)))
 	e.r.Sample(map[string]any{"family": "replay", "text": doc.Replay.Text})
 	e.r.Distinct("replay")
 	e.r.Distinct("replay:" + doc.Key)
@@ -616,6 +634,6 @@ func replay(e *engine, path string) {
 	e.r.NotExhaustive("replay of a single case")
 	if v.kind != "" {
 		text, env := doc.Replay.Text, doc.Replay.Env
-		e.r.Violation(doc.Key, v.detail, map[string]any{"text": text, "formatted": v.out, "family": "replay", "detail": v.detail, "env": env}, func() bool { return e.recheck(env, text) })
+		e.r.Violation(doc.Key, keepOut(v.detail), map[string]any{"text": text, "formatted": keepOut(v.out), "family": "replay", "detail": keepOut(v.detail), "env": env}, func() bool { return e.recheck(env, text) })
 	}
 }
